@@ -14,3 +14,9 @@ Ltac bridge :=
       bridge_norm; bridge_steps; all_pcs_used; reflexivity
   | _ => first [ vm_compute; reflexivity | bridge_norm; reflexivity ]
   end.
+
+(* solver bridges: never unfold the fuelled loop wholesale; step it one iteration at a time *)
+Ltac solver_norm :=
+  cbv beta iota zeta delta -[num add sub mul div neg nabs nexp nln rpow ipow lit leb ltb eqb] in *.
+Ltac bridge_solver :=
+  solver_norm; repeat (step_if; solver_norm); all_pcs_used; reflexivity.
